@@ -68,7 +68,7 @@ fn block_on<F: std::future::Future>(f: F) -> F::Output {
 pub mod task { pub fn spawn<F: std::future::Future + Send + 'static>(f: F) { super::sched::spawn(Box::new(move || { super::block_on(f); })); } }
 // shims: the socket's report watchable and metrics, the port mapper, the relay map, the interface state, the net reporter
 #[derive(Debug, Default)] pub struct Watchable<T> { v: std::sync::Mutex<Option<T>> }
-impl<T> Watchable<T> { pub fn set(&self, v: T) -> Result<(), ()> { *self.v.lock().unwrap() = Some(v); Ok(()) } }
+impl<T: std::fmt::Debug> Watchable<T> { pub fn set(&self, v: T) -> Result<(), ()> { ev(format!("report stored {v:?}")); *self.v.lock().unwrap() = Some(v); Ok(()) } }
 #[derive(Debug, Default)] pub struct Counter; impl Counter { pub fn inc(&self) -> u64 { 0 } }
 #[derive(Debug, Default)] pub struct NetReportMetrics { pub portmap_attempts: Counter }
 #[derive(Debug, Default)] pub struct SocketMetrics { pub net_report: NetReportMetrics }
@@ -130,15 +130,16 @@ fn main() {
     let args: Vec<String> = std::env::args().collect();
     let max_ops: usize = args.get(1).and_then(|s| s.parse().ok()).unwrap_or(3);
     let bound: usize = args.get(2).and_then(|s| s.parse().ok()).filter(|b| *b > 0).unwrap_or(usize::MAX);   // 0 = every schedule
-    sched::PREEMPTION_BOUND.store(bound, Ordering::Relaxed);
     let mut rep = Rep::new(args.get(3).cloned());
     // actor scripts: update requests, single reactions to a done signal (if one is queued), and finally draining: reacting
     // to done signals until no run task is alive and the channel is empty
-    let a = UpdateReason::Periodic; let b = UpdateReason::LinkChangeMajor; let c = UpdateReason::PortmapUpdated;
+    let a = UpdateReason::Periodic; let b = UpdateReason::LinkChangeMajor; let c = UpdateReason::PortmapUpdated; let d = UpdateReason::RelayMapChange;
     let mut scripts: Vec<Vec<Op>> = vec![vec![Op::Schedule(a)], vec![Op::Schedule(a), Op::Schedule(b)], vec![Op::Schedule(a), Op::React, Op::Schedule(b)]];
     if max_ops >= 3 { scripts.push(vec![Op::Schedule(a), Op::Schedule(b), Op::Schedule(c)]); scripts.push(vec![Op::Schedule(a), Op::Schedule(b), Op::React, Op::Schedule(c)]); scripts.push(vec![Op::Schedule(a), Op::React, Op::Schedule(b), Op::React, Op::Schedule(c)]); }
-    if max_ops >= 4 { scripts.push(vec![Op::Schedule(a), Op::Schedule(b), Op::React, Op::React, Op::Schedule(c), Op::Schedule(a)]); scripts.push(vec![Op::Schedule(a), Op::React, Op::Schedule(b), Op::Schedule(c), Op::React, Op::Schedule(a), Op::React]); }
+    if max_ops >= 4 { scripts.push(vec![Op::Schedule(a), Op::Schedule(b), Op::React, Op::React, Op::Schedule(c), Op::Schedule(d)]); scripts.push(vec![Op::Schedule(a), Op::React, Op::Schedule(b), Op::Schedule(c), Op::React, Op::Schedule(d), Op::React]); }
     for sc in &scripts {
+        // scripts with at most two requests: every schedule; longer ones: at most `bound` pre-emptive context switches
+        sched::PREEMPTION_BOUND.store(if sc.iter().filter(|o| matches!(o, Op::Schedule(_))).count() >= 3 { bound } else { usize::MAX }, Ordering::Relaxed);
         let mut prefix: Vec<usize> = vec![];
         let base = format!("actor={:?}", sc);
         if let Some(o) = &rep.only { if !o.starts_with(&format!("{base} ")) { continue; } if let Some(p) = o.split("choices=").nth(1) { prefix = p.trim_matches(|c| c == '[' || c == ']').split(',').filter_map(|x| x.trim().parse().ok()).collect(); } }
@@ -178,6 +179,12 @@ fn main() {
                 // was in progress must have been started by now
                 if let Some(Some(why)) = *pending.lock().unwrap() {
                     rep.fail("requested-update-starts-when-the-run-finishes", "other", &input, format!("all runs have finished and all done signals were handled, but the update requested meanwhile ({why:?}) was never started; events {:?}", events));
+                }
+                // the update requested LAST is never overridden by a later request: whether it started a run itself or was parked behind a
+                // running one, a report run for exactly that request must have taken place by now
+                if let Some(Op::Schedule(last)) = sc.iter().rev().find(|o| matches!(o, Op::Schedule(_))) {
+                    let tag = format!("report stored (Some(Report), {last:?})");
+                    if !events.iter().any(|e| *e == tag) { rep.fail("requested-update-starts-when-the-run-finishes", "dropped", &input, format!("the update requested last ({last:?}) never ran: no report was produced for it; events {:?}", events)); }
                 }
                 // and it starts only after the previous run finished (implied by the lock; checked on the log)
                 let mut active = false;
